@@ -661,6 +661,7 @@ static void env_setup(void)
     uref_mgr = uref_std_mgr_alloc(depth[pool], udict_mgr, 0);
     ubuf_mgr = ubuf_block_mem_mgr_alloc(depth[pool], depth[pool], umem, 0, 0, 0, 0);
     upump_mgr = upump_sim_mgr_alloc(depth[pool], depth[pool]);
+    upump_sim_mgr_set_horizon(upump_mgr, UINT64_C(27000000) * 3600);   /* an hour */
     upump_sim_mgr_set_fifo(upump_mgr, twin_run);
     memset(kind_mgr, 0, sizeof(kind_mgr));
     if (types[type].flags & F_TYPED) {
